@@ -217,7 +217,113 @@ def t_threads_deterministic():
     assert digests[0] == digests[1]
 
 
+def t_example_multiceiver():
+    """port of examples/nrf24l01_multiceiver_test.py: six transmitters, one receiver with six pipes"""
+    m = repo()
+    addresses = [b"\x78" * 5, b"\xF1\xB6\xB5\xB4\xB3", b"\xCD\xB6\xB5\xB4\xB3",
+                 b"\xA3\xB6\xB5\xB4\xB3", b"\x0F\xB6\xB5\xB4\xB3", b"\x05\xB6\xB5\xB4\xB3"]
+    rig = Rig()
+    base = rig.driver(rig.radio("base"))
+    for pipe_n, addr in enumerate(addresses):
+        base.open_rx_pipe(pipe_n, addr)
+    base.listen = True
+    got = []
+    for n in range(6):
+        node = rig.driver(rig.radio("node%d" % n))
+        node.listen = False
+        node.open_tx_pipe(addresses[n])
+        assert node.send(b"\0" + bytes([n + 0x30])) is True, n
+        while base.available():
+            got.append((base.pipe, bytes(base.read())))
+    assert got == [(n, b"\0" + bytes([n + 0x30])) for n in range(6)], got
+    rig.close()
+
+
+def t_example_manual_ack_and_context():
+    """ports of the manual-ack ping-pong and of the context example (two objects, one radio)"""
+    m = repo()
+    rig = Rig()
+    ra, rb = rig.radio("A"), rig.radio("B")
+    a, b = rig.driver(ra), rig.driver(rb)
+    a.open_tx_pipe(b"1Node")
+    a.open_rx_pipe(1, b"2Node")
+    b.open_tx_pipe(b"2Node")
+    b.open_rx_pipe(1, b"1Node")
+    b.listen = True
+    a.listen = False
+    for i in range(3):
+        assert a.send(b"Hello " + bytes([i])) is True
+        a.listen = True
+        assert b.available() and bytes(b.read()) == b"Hello " + bytes([i])
+        b.listen = False
+        assert b.send(b"World " + bytes([i])) is True
+        b.listen = True
+        assert a.available() and a.pipe == 1 and bytes(a.read()) == b"World " + bytes([i])
+        a.listen = False
+    # context example: a BLE object and a plain object configured differently on one chip
+    F = m["fake_ble"]
+    rc = rig.radio("C")
+    nrf = rig.driver(rc)
+    ble = rig.driver(rc, cls=F.FakeBLE)
+    with nrf as n:
+        n.data_rate = 2
+        n.channel = 100
+        snap_n = rc.snapshot()["cfg"]
+    with ble as bl:
+        snap_b = rc.snapshot()["cfg"]
+        assert rc.r[5] in (2, 26, 80) and rc.r[1] == 0 and rc.r[3] == 2
+    with nrf:
+        assert rc.snapshot()["cfg"] == snap_n
+    with ble:
+        assert rc.snapshot()["cfg"] == snap_b
+    assert not rc.r[0] & 2 and not rc.ce
+    rig.close()
+
+
+def t_example_network():
+    """port of the network example: a child sends to the master through RF24Network objects"""
+    from . import world as W
+    m = repo()
+    rig = Rig(seed=3, bind=False)
+    n0 = rig.world.add_node("m", W.Profile(jitter=0.2))
+    n1 = rig.world.add_node("c", W.Profile(spi_overhead=60000, jitter=0.2))
+    rig.world.bind(n0)
+    r0, r1 = rig.radio("M"), rig.radio("C")
+    master = rig.driver(r0, cls=m["rf24_network"].RF24Network, node_address=0)
+    W.World.unbind()
+    n0.done = True  # not runnable until spawned (else the next constructor would wait for it)
+    rig.world.bind(n1)
+    child = rig.driver(r1, cls=m["rf24_network"].RF24Network, node_address=0o1)
+    W.World.unbind()
+    n1.done = True
+    n0.t = n1.t = max(n0.t, n1.t, rig.world.now)
+    got, res = [], []
+
+    def child_app():
+        for i in range(4):
+            res.append(child.send(m["structs"].RF24NetworkHeader(0, "T"), bytes([i]) * (10 + 20 * i)))
+            n1.idle(3 * MS)
+        n1.idle(20 * MS)
+
+    def master_app():
+        while True:
+            master.update()
+            while master.available():
+                f = master.read()
+                got.append((f.header.from_node, f.header.message_type, bytes(f.message)))
+            n0.idle(300 * US)
+    rig.world.spawn(n1, child_app)
+    rig.world.spawn(n0, master_app, daemon=True)
+    assert rig.world.run(60)
+    assert n0.exc is None and n1.exc is None, (n0.exc, n1.exc)
+    assert res == [True] * 4, res
+    assert got == [(0o1, ord("T"), bytes([i]) * (10 + 20 * i)) for i in range(4)], got
+    assert not r0.san and not r1.san
+
+
 def main():
+    import faulthandler
+    faulthandler.dump_traceback_later(240, exit=True)  # a hanging self-test must never hang setup
     tests = [v for k, v in sorted(globals().items()) if k.startswith("t_")]
     for t in tests:
         t()
